@@ -157,7 +157,30 @@ def anchored_docs(key):
                  (("c", 0), "secret", "shared secret"),
                  (("c", 1), "secret", "other")],
                 [[("a",), ("c", 0)], [("b",), ("c", 1)]]))
+    # YAML merge keys: a local secret overriding a merged one, a secret seen
+    # only through the merge, and the merge key in last position
+    enc3 = fake_eyaml.encrypt("third\r\nsecret", key)
+    out.append(("merge-override",
+                "defaults: &D\n  password: %s\n  user: plain\n"
+                "prod:\n  <<: *D\n  password: %s\n"
+                "stage:\n  <<: *D\n  token: %s\n" % (enc, enc2, enc3),
+                [(("defaults", "password"), "secret", "shared secret"),
+                 (("defaults", "user"), "plain", "plain"),
+                 (("prod", "password"), "secret", "other"),
+                 (("prod", "user"), "plain", "plain"),
+                 (("stage", "password"), "secret", "shared secret"),
+                 (("stage", "token"), "secret", "third\r\nsecret")],
+                [[("defaults", "password"), ("stage", "password")]]))
+    out.append(("merge-last",
+                "base: &D\n  password: %s\nlist:\n  - token: %s\n"
+                "    password: %s\n    <<: *D\n" % (enc, enc3, enc2),
+                [(("base", "password"), "secret", "shared secret"),
+                 (("list", 0, "token"), "secret", "third\r\nsecret"),
+                 (("list", 0, "password"), "secret", "other")], []))
     return out
+
+
+N_ANCHORED = 6
 
 
 def plan(tier):
@@ -169,7 +192,7 @@ def plan(tier):
             "secret", "folded", "spaced", "plain", "xenc", "null")
         for kinds in itertools.product(kinds_pool, repeat=nslots[skel]):
             CASES.append(("grid", skel, kinds))
-    for i in range(4):
+    for i in range(N_ANCHORED):
         CASES.append(("anchored", i, None))
     bounds = {"skeletons": SKELETONS, "slot_kinds": list(KINDS),
               "cases": len(CASES), "backup": [False, True]}
